@@ -41,6 +41,16 @@ func init() {
 			j := &Job{Scenario: "cache.conc", Params: js(p), Variant: "small", PB: 2, Shards: 4, BudgetS: 60, Need: []string{"interleavings-explained", "read-buffer-saturated-at-start"}}
 			jobs = append(jobs, j)
 		}
+		// cache level: the read buffer has exactly one consumer at a time. Recorded reads are pending when two operations
+		// that drain it (InvalidateAll, CleanUp, a write's maintenance) overlap; afterwards every recorded read is
+		// delivered by a drain at quiescence
+		for _, pair := range [][]string{{"invall", "cleanup"}, {"invall", "invall"}, {"invall", "set 3"}, {"cleanup", "set 3"}} {
+			// expiring: reads are recorded from the start (a size-bounded cache skips the buffer until its sketch is in use)
+			cfg := CacheCfg{MaxSize: 8, Expiry: "writing", TTL: 1 << 30, ClockStart: 1 << 40, Executor: "caller"}
+			setup := []string{"set 1", "set 2", "cleanup", "get 1", "get 2", "get 1"}
+			p := concParams{Label: "cache:" + pair[0] + "‖" + pair[1] + "(pending reads)", Cfg: cfg, Setup: setup, Threads: [][]string{{pair[0], "get 1", "get 2"}, {pair[1], "get 2"}}, Oracles: []string{"readbuf-drained"}}
+			jobs = append(jobs, &Job{Scenario: "cache.conc", Params: js(p), Variant: "small", PB: 2, Shards: 4, BudgetS: 60, Need: []string{"readbuf-checks"}})
+		}
 		// stripe tables with empty slots between rings (two doublings, then attaches at environment-chosen slots)
 		add(c17Params{MaxLen: 4, Adders: []int{2, 1}, Prefill: 1, Doubles: 2, Drains: 1, RandOpts: 4}, "small", 1, 4, 8, 60, "success", "ring-behind-empty-stripe")
 		// a stripe attach racing the table expansion of another (contended) Add
